@@ -343,13 +343,22 @@ func runC04(c *ctx) error {
 	}
 	_, skipKnown := c.known.has("x")
 	_ = skipKnown
+	if c.only != nil {
+		n = 1
+	}
 	for i := 0; i < n; i++ {
 		o := &gen.Opts{R: rng, Str: c04Str, Key: c04Key, UntypedExotic: true, MaxGroupDepth: 3, MaxMapSize: 24, Hist: c.res.Hist}
-		doc := o.Pipeline()
-		if m, ok := doc.(interface{ Delete(string) }); ok {
-			m.Delete("env") // the env block is C10's subject; C04 compares the rest of the pipeline
+		var src []byte
+		format := "given"
+		if c.only != nil {
+			src = c.only
+		} else {
+			doc := o.Pipeline()
+			if m, ok := doc.(interface{ Delete(string) }); ok {
+				m.Delete("env") // the env block is C10's subject; C04 compares the rest of the pipeline
+			}
+			src, format = renderDoc(rng, doc)
 		}
-		src, format := renderDoc(rng, doc)
 		if src == nil {
 			continue
 		}
@@ -363,6 +372,12 @@ func runC04(c *ctx) error {
 			}
 		}
 		delete(runtime, "UNSET")
+		if c.only != nil && c.onlyEnv != nil {
+			runtime = map[string]string{}
+			for k, v := range c.onlyEnv {
+				runtime[k] = v
+			}
+		}
 		expand := func(s string) (string, bool) {
 			out, err := interpolate.Interpolate(mapEnv(runtime), s)
 			return out, err == nil
@@ -446,6 +461,9 @@ func runC04(c *ctx) error {
 				break
 			}
 		}
+	}
+	if c.only != nil {
+		return nil
 	}
 	// walkers in isolation: big Go maps and ordered maps with renamed keys and escaped values (the double-expansion trigger)
 	nw := n / 2
